@@ -169,9 +169,13 @@ def reference(kind, content, refdir, stats):
 # history generation
 # --------------------------------------------------------------------------------------
 ENTRIES = ['client', 'client_params', 'cli', 'main_argv', 'hip']
-OUT_FORMS = ['absent', 'rel', 'rel_nested', 'rel_nosuffix', 'rel_oneletter', 'rel_repeated', 'abs', 'abs_nosuffix']
+OUT_FORMS = ['absent', 'rel', 'rel_nested', 'rel_nosuffix', 'rel_oneletter', 'rel_repeated', 'abs', 'abs_nosuffix',
+             'rel_tilde', 'rel_tildedir', 'rel_symlink', 'rel_dotdot', 'rel_dot']
 CWD_DIRS = ['cwd0', 'cwd with space', 'deep/x/y/z', 'decoy', 'w']
 ARGVS = [['caller'], ['pytest', '-ra', '-q'], ['prog', 'a.txt', 'b.out'], []]
+OUT_NAMES = {'rel': 'result.out', 'rel_nested': 'sub dir/nested.out', 'rel_nosuffix': 'r', 'rel_oneletter': 'o.t',
+             'rel_repeated': 'out.d/out', 'abs': 'res.abs.out', 'abs_nosuffix': 'absreport', 'rel_tilde': '~run1/out.txt',
+             'rel_tildedir': '~/out.txt', 'rel_symlink': 'latest.out', 'rel_dotdot': '../sibling dir/out.txt', 'rel_dot': './dot.out'}
 FAULTS = ['enospc', 'eio', 'eacces', 'vanish', 'cancel']
 FAULT_AT = [1, 2, 3, 4, 5, 6, 7, 8, 10, 12, 15, 20, 25, 30, 40]
 SLOT_PATHS = ['in/req0.txt', 'in dir/req 1.txt', 'deep/a/b/req2.txt']
@@ -181,7 +185,11 @@ def gen_request(cs, templates, kind=None, allow_slow=False, fail=None, neighbour
     if neighbour_of is not None:
         # same configuration family, exactly one more parameter moved: the pairs that expose incomplete memo keys
         ti = neighbour_of['template']
-        tw = HW.neighbour_tweak(cs, templates[ti], _state.get('ranges', {}))
+        if templates[ti]['kind'] == 'geo' and cs.choose(4, 'ntable') == 3:
+            a = cs.choose(len(HW.GEO_TWEAKS), 'tweak')
+            tw = (HW.GEO_TWEAKS[a][0], HW.GEO_TWEAKS[a][1][cs.choose(len(HW.GEO_TWEAKS[a][1]), 'tweakv')])
+        else:
+            tw = HW.neighbour_tweak(cs, templates[ti], _state.get('ranges', {}))
         tweaks = [x for x in neighbour_of['tweaks'] if tw is None or x[0] != tw[0]] + ([tw] if tw else [])
         return {'template': ti, 'tweaks': [tuple(x) for x in tweaks], 'poison': None}
     pool = [i for i, t in enumerate(templates) if (kind is None or t['kind'] == kind) and (allow_slow or t['cost'] == 'fast')]
@@ -218,55 +226,82 @@ def request_text(req, templates):
     return s
 
 
+THEMES = ['mixed', 'cache', 'paths', 'mixed', 'faults', 'cache']
+
+
 def gen_history(cs, templates, tier, force=None):
+    """swarm style: every history has a theme that skews the operation mix, the entry points, the slot and the client used"""
     force = force or {}
     h = {}
-    h['faulty'] = force.get('faulty', cs.choose(3, 'faulty') == 2)      # fault-free and fault-injecting configurations are separate
+    theme = force.get('theme') or THEMES[cs.choose(len(THEMES), 'theme')]
+    h['theme'] = theme
+    h['faulty'] = force.get('faulty', theme == 'faults' or (theme == 'mixed' and cs.choose(4, 'faulty') == 3))
     allow_slow = cs.choose(4, 'slow') == 3 if tier == 'thorough' else cs.choose(12, 'slow') == 11
     h['start_cwd'] = CWD_DIRS[cs.choose(len(CWD_DIRS), 'startcwd')]
     nops = 2 + cs.choose(7, 'nops')
     if allow_slow and tier != 'thorough':
         nops = min(nops, 4)
+    if theme == 'cache':
+        kinds = ['run'] * 4 + ['rewrite'] * 5 + ['chdir', 'clock', 'delete']
+        entries = ['client'] * 5 + ['client_params', 'cli', 'main_argv']
+        slot_tab = [0]
+        c0 = [0, 2][cs.choose(2, 'cacheclient')]
+        client_tab = [c0] * 6 + [1, 2 - c0]
+        p_neighbour = 3      # of 4
+    elif theme == 'paths':
+        kinds = ['run'] * 6 + ['chdir'] * 3 + ['rewrite', 'argv', 'delete']
+        entries = ['cli'] * 5 + ['main_argv', 'client', 'hip']
+        slot_tab = [0, 0, 1, 2]
+        client_tab = [0, 0, 2, 1]
+        p_neighbour = 1
+    else:
+        kinds = ['run', 'run', 'run', 'run', 'rewrite', 'rewrite', 'rewrite', 'chdir', 'argv', 'clock', 'delete', 'mc']
+        entries = ENTRIES
+        slot_tab = [0, 0, 0, 1, 2]
+        client_tab = [0, 0, 2, 1]
+        p_neighbour = 2
+    if h['faulty']:
+        kinds = kinds + ['fault'] * (6 if theme == 'faults' else 4)
     ops = []
     slots = {}
     nruns = 0
+
+    def mk_run(entry, slot):
+        nonlocal nruns
+        op = {'op': 'run', 'entry': entry, 'slot': slot, 'client': client_tab[cs.choose(len(client_tab), 'client')],
+              'out': OUT_FORMS[cs.choose(len(OUT_FORMS), 'out')], 'reuse': cs.choose(2, 'reuse') == 1}
+        if entry == 'client_params':
+            tw = HW.GEO_TWEAKS[cs.choose(len(HW.GEO_TWEAKS), 'ptweak')]
+            op['params'] = {tw[0]: tw[1][cs.choose(len(tw[1]), 'ptweakv')]}
+            if cs.choose(6, 'pbad') == 5:
+                op['params'] = {'Utilization Factor': '7'}
+        ops.append(op)
+        nruns += 1
+
     for i in range(nops):
-        kinds = ['run', 'run', 'run', 'run', 'rewrite', 'rewrite', 'rewrite', 'chdir', 'argv', 'clock', 'delete', 'mc']
-        if h['faulty']:
-            kinds += ['fault', 'fault', 'fault', 'fault', 'fault']
         kind = kinds[cs.choose(len(kinds), 'op')]
         if kind == 'run' or (i == nops - 1 and nruns == 0):
-            entry = force.get('entry') or ENTRIES[cs.choose(len(ENTRIES), 'entry')]
-            slot = [0, 0, 0, 1, 2][cs.choose(5, 'slot')]
+            entry = force.get('entry') or entries[cs.choose(len(entries), 'entry')]
+            slot = slot_tab[cs.choose(len(slot_tab), 'slot')]
             rk = 'hip' if entry == 'hip' else 'geo'
             if slot not in slots or slots[slot]['kind'] != rk:
                 req = gen_request(cs, templates, rk, allow_slow)
                 ops.append({'op': 'write', 'slot': slot, 'req': req, 'kind': rk})
                 slots[slot] = {'kind': rk, 'req': req}
-            op = {'op': 'run', 'entry': entry, 'slot': slot, 'client': [0, 0, 2, 1][cs.choose(4, 'client')],
-                  'out': OUT_FORMS[cs.choose(len(OUT_FORMS), 'out')], 'reuse': cs.choose(2, 'reuse') == 1}
-            if entry == 'client_params':
-                tw = HW.GEO_TWEAKS[cs.choose(len(HW.GEO_TWEAKS), 'ptweak')]
-                op['params'] = {tw[0]: tw[1][cs.choose(len(tw[1]), 'ptweakv')]}
-                if cs.choose(6, 'pbad') == 5:
-                    op['params'] = {'Utilization Factor': '7'}
-            ops.append(op)
-            nruns += 1
+            mk_run(entry, slot)
         elif kind == 'rewrite':
             if not slots:
                 continue
             sl = sorted(slots)[cs.choose(len(slots), 'rwslot')]
-            if cs.choose(2, 'neighbour') == 1:
+            if cs.choose(4, 'neighbour') < p_neighbour:
                 req = gen_request(cs, templates, neighbour_of=slots[sl]['req'])
             else:
                 req = gen_request(cs, templates, slots[sl]['kind'], allow_slow)
             slots[sl]['req'] = req
             ops.append({'op': 'write', 'slot': sl, 'req': req, 'kind': slots[sl]['kind']})
-            if cs.choose(2, 'rerun') == 1 and slots[sl]['kind'] == 'geo':
-                # run the rewritten file again straight away through a client (the interesting case for caches)
-                ops.append({'op': 'run', 'entry': 'client', 'slot': sl, 'client': [0, 0, 2, 1][cs.choose(4, 'client')],
-                            'out': 'absent', 'reuse': cs.choose(2, 'reuse') == 1})
-                nruns += 1
+            if slots[sl]['kind'] == 'geo' and (theme == 'cache' or cs.choose(2, 'rerun') == 1):
+                # run the rewritten file again straight away (the interesting case for caches)
+                mk_run('client' if theme != 'paths' else 'cli', sl)
         elif kind == 'chdir':
             ops.append({'op': 'chdir', 'dir': CWD_DIRS[cs.choose(len(CWD_DIRS), 'dir')]})
         elif kind == 'argv':
@@ -287,13 +322,7 @@ def gen_history(cs, templates, tier, force=None):
                 # a fault while idle tests nothing: most armed faults are followed at once by a run on an existing slot
                 sl = sorted(slots)[cs.choose(len(slots), 'fslot')]
                 entry = 'hip' if slots[sl]['kind'] == 'hip' else ['client', 'cli', 'client_params', 'main_argv'][cs.choose(4, 'fentry')]
-                op = {'op': 'run', 'entry': entry, 'slot': sl, 'client': [0, 0, 2, 1][cs.choose(4, 'client')],
-                      'out': OUT_FORMS[cs.choose(len(OUT_FORMS), 'out')], 'reuse': cs.choose(2, 'reuse') == 1}
-                if entry == 'client_params':
-                    tw = HW.GEO_TWEAKS[cs.choose(len(HW.GEO_TWEAKS), 'ptweak')]
-                    op['params'] = {tw[0]: tw[1][cs.choose(len(tw[1]), 'ptweakv')]}
-                ops.append(op)
-                nruns += 1
+                mk_run(entry, sl)
     h['ops'] = ops
     return h
 
@@ -358,7 +387,8 @@ def run_one(payload):
     rec = {'seed': seed, 'engine': 'histsim', 'history': h, 'config': h}
     stats = {}
     try:
-        for d in ['tmp', 'in', 'in dir', 'deep/a/b', 'out abs'] + CWD_DIRS:
+        os.environ['HOME'] = os.path.join(sandbox, 'home')
+        for d in ['tmp', 'in', 'in dir', 'deep/a/b', 'out abs', 'home'] + CWD_DIRS:
             os.makedirs(os.path.join(sandbox, d), exist_ok=True)
         # decoys: files a run must neither read instead of its own data nor overwrite
         dec = os.path.join(sandbox, 'decoy')
@@ -450,6 +480,7 @@ class Exec:
         self.stats = stats
         self.last_failed_client = set()
         self.pending_fault = None
+        self.client_text = {}
         self.client_seen = {}     # (client, slot) -> content hash of the last successful run through a caching client
 
     def live(self):
@@ -579,16 +610,19 @@ class Exec:
         """-> (argument passed to the entry point or None, expected report path, expected json path)"""
         if form == 'absent':
             return None, os.path.join(cwd, 'HDR.out'), os.path.join(cwd, 'HDR.json')
-        name = {'rel': 'result.out', 'rel_nested': 'sub dir/nested.out', 'rel_nosuffix': 'r', 'rel_oneletter': 'o.t',
-                'rel_repeated': 'out.d/out', 'abs': 'res.abs.out', 'abs_nosuffix': 'absreport'}[form]
+        name = OUT_NAMES[form]
         if form.startswith('abs'):
             arg = os.path.join(self.sb, 'out abs', name)
             full = arg
         else:
             arg = name
-            full = os.path.join(cwd, name)
+            full = os.path.normpath(os.path.join(cwd, name)) if form == 'rel_dotdot' else os.path.join(cwd, name)
         d = os.path.dirname(full)
         os.makedirs(d, exist_ok=True)
+        if form == 'rel_symlink' and not os.path.lexists(full):
+            # the requested output path is a symbolic link to a file with another name in another directory
+            os.makedirs(os.path.join(cwd, 'runs'), exist_ok=True)
+            os.symlink(os.path.join('runs', 'r1.out'), full)
         stem = os.path.splitext(os.path.basename(full))[0]
         return arg, full, os.path.join(d, stem + '.json')
 
@@ -611,6 +645,8 @@ class Exec:
             prev = self.client_seen.get((op['client'], op['slot']))
             if prev is not None and prev != sha(str(eff)):
                 self.probe('same_client_same_path_after_rewrite')
+                if _tail_only_diff(self.client_text.get((op['client'], op['slot'])), eff):
+                    self.probe('same_client_requests_differing_only_in_a_list_tail')
         cwd = os.getcwd()
         k.record('op:run', f"{entry} slot{op['slot']} client{op['client']} out={op['out']} expect={exp['outcome']}")
         seq0 = k.seq
@@ -741,9 +777,9 @@ class Exec:
         after = {d: list_dir(d) for d in before}
         allowed = set()
         if report_path:
-            allowed |= {report_path, json_path}
+            allowed |= {os.path.normpath(report_path), os.path.normpath(json_path), os.path.realpath(report_path)}
         for d in before:
-            new = {os.path.join(d, x) for x in (after[d] - before[d])}
+            new = {os.path.normpath(os.path.join(d, x)) for x in (after[d] - before[d])}
             new = {x for x in new if x not in allowed and not x.endswith('all_messages_conf.log') and '__pycache__' not in x}
             if new and not fired and entry != 'hip':
                 self.V('C20', 'stray_file', entry, f"new files outside the requested output: {sorted(x.replace(self.sb, '$SB') for x in new)[:4]}")
@@ -776,6 +812,7 @@ class Exec:
                 self.probe('served_from_cache')
             if entry == 'client' and op['client'] != 1:
                 self.client_seen[(op['client'], op['slot'])] = sha(str(eff))
+                self.client_text[(op['client'], op['slot'])] = eff
         else:
             self.result_digest.update(f'{outcome}'.encode())
         # (reports stay where they were written: later operations run against a directory that already holds them)
@@ -845,6 +882,27 @@ class Exec:
             op['_failed'] = True
             self.probe('mc_failed')
         self.check_ambient(op, argv_clause=True)
+
+
+def _tail_only_diff(a, b):
+    """two input texts whose effective (name -> line) maps differ in exactly one parameter, and there only after the
+    second comma-separated field"""
+    if not a or not b:
+        return False
+
+    def eff(t):
+        d = {}
+        for ln in t.split('\n'):
+            s_ = ln.split('--')[0].strip()
+            if s_ and not s_.startswith('#') and ',' in s_:
+                d[s_.split(',')[0].strip()] = [x.strip() for x in s_.split(',')]
+        return d
+    da, db = eff(a), eff(b)
+    diff = [k_ for k_ in set(da) | set(db) if da.get(k_) != db.get(k_)]
+    if len(diff) != 1:
+        return False
+    x, y = da.get(diff[0]), db.get(diff[0])
+    return bool(x and y and x[:2] == y[:2])
 
 
 def _file_sha(p):
